@@ -5,6 +5,7 @@ V = os.path.dirname(os.path.dirname(os.path.abspath(__file__)))
 plan = json.load(open(os.path.join(V, "harness/plan.json")))
 
 NA = {
+ "C11": "solver-based harness written (harness/c11.rs: Container built by struct literal, locator that finds nothing, Container::get_pack driven with a symbolic pack id) but CBMC does not return within 25 minutes (the MISSING branch clones a PackInfo, i.e. a SmallVec; the FOUND branch is ContentPack::new); the harness is not registered and no claim is made (DESIGN.md section 5)",
  "C07": "quantifies over thread interleavings of readers with decompression workers: Kani/CBMC execute one thread, rayon cannot even be compiled by Kani 0.68 (catch_unwind ICE), the sequential writer loop decode_to_end did not terminate under CBMC in 15 min; nothing that decides the property can be encoded (DESIGN.md section 5)",
  "C08": "quantifies over completion orders of compression worker threads; ClusterWriterProxy::new spawns the threads at construction and Kani has no thread model (DESIGN.md section 5)",
  "C09": "quantifies over crash points of real file-system writes and rename atomicity (OS semantics behind FFI); no function whose symbolic execution says anything about a process dying mid-write (DESIGN.md section 5)",
